@@ -18,7 +18,7 @@ class Mismatch(Exception):
 
 
 def bfs_histories(chk, init_model, actions, run_layer, judge, max_depth, label="",
-                  max_states=None, on_violation=None, time_frac=0.9):
+                  max_states=None, on_violation=None, time_frac=0.9, stop_at=None):
     """
     init_model          model object with .key()
     actions(model)      -> list of actions enabled in this model state
@@ -31,9 +31,10 @@ def bfs_histories(chk, init_model, actions, run_layer, judge, max_depth, label="
     states, transitions = 1, 0
     depth_completed = 0
     rate = None
+    limit = chk.budget * time_frac if stop_at is None else min(stop_at, chk.budget * time_frac)
     for depth in range(1, max_depth + 1):
-        if chk.out_of_time(time_frac):
-            chk.cap("%s: stopped before depth %d (time budget)" % (label, depth))
+        if chk.elapsed() > limit:
+            chk.cap("%s: stopped before depth %d (time slice)" % (label, depth))
             break
         cands = []
         for hist, model, trace in frontier:
@@ -43,7 +44,7 @@ def bfs_histories(chk, init_model, actions, run_layer, judge, max_depth, label="
             depth_completed = depth
             break
         # do not start a layer that cannot finish inside the budget (rate measured on earlier layers)
-        if rate and len(cands) / rate > max(5.0, chk.budget * time_frac - chk.elapsed()):
+        if rate and len(cands) / rate > max(5.0, limit - chk.elapsed()):
             chk.cap("%s: depth %d (%d histories) skipped, would exceed the time budget" % (label, depth, len(cands)))
             break
         import time as _t
